@@ -238,7 +238,7 @@ func c15Oracle(tr *Trace, out *kit.Outcome) bool {
 					return false
 				}
 				// ground truth from the extension's own calls before the line
-				var reg, nxt, ierr *Event
+				var reg, nxt, ierr, ierrIssued *Event
 				failLaunch, _ := ex.Extra["fail"].(bool)
 				for k := range tr.Events {
 					e := &tr.Events[k]
@@ -254,6 +254,9 @@ func c15Oracle(tr *Trace, out *kit.Outcome) bool {
 					if e.Kind == "return" && e.Call == "ext.initerror" && e.Status == 202 {
 						ierr = e
 					}
+					if e.Kind == "issue" && e.Call == "ext.initerror" {
+						ierrIssued = e // the report takes effect when its headers arrive; its body may still be on the way
+					}
 				}
 				state := xs(line, "state")
 				allowed := map[string]bool{}
@@ -262,6 +265,8 @@ func c15Oracle(tr *Trace, out *kit.Outcome) bool {
 					allowed["LaunchError"] = true
 				case ierr != nil:
 					allowed["InitError"] = true
+				case ierrIssued != nil:
+					allowed["InitError"], allowed["Registered"] = true, true // a report in flight may or may not have landed
 				case nxt != nil:
 					allowed["Ready"], allowed["Registered"], allowed["Running"] = true, true, true // the poll may not have landed yet
 				case reg != nil:
